@@ -103,6 +103,12 @@ Definition observe_zod_order (text : str) : c09obs :=
                               map strip_schema (filter (fun x => smemb x names && negb (str_eqb x (L "z"))) (dedup (snd c))))) structs;
      c_ok := decl_before_use cs; c_parsed := parsed |}.
 
+(* config.type_mappings: a mapped name is rendered as its mapping (visit_custom), so the schema of a field no longer
+   mentions the mapped type's schema; discovery, selection and order do not look at the mappings *)
+Definition is_mapped (m : list (str * str)) (n : str) : bool := existsb (fun kv => str_eqb (fst kv) n) m.
+Definition schema_refs_m (m : list (str * str)) (p : project) (n : str) : list str :=
+  filter (fun x => negb (is_mapped m x)) (schema_refs p n).
+
 (* correspondence: the model, run under the orders reconstructed from the output, emits the same list,
    and each schema mentions the declared schemas the model says it mentions *)
 (* since the sort-before-use repair the emitted order is the one of the model under o_sorted *)
@@ -110,11 +116,11 @@ Definition c09_sorted_order (p : project) (ob : c09obs) : bool :=
   match emitted_zod o_sorted p with
   | Some out => if list_eq_dec str_dec out (c_structs ob) then true else false
   | None => false end.
-Definition c09_corr (p : project) (ob : c09obs) : bool :=
+Definition c09_corr (m : list (str * str)) (p : project) (ob : c09obs) : bool :=
   match emitted_zod (o_obs (c_structs ob)) p with
   | Some out =>
       (if list_eq_dec str_dec out (c_structs ob) then true else false)
-      && forallb (fun r => same_set_b (snd r) (filter (fun v => smemb v out) (schema_refs p (fst r)))) (c_refs ob)
+      && forallb (fun r => same_set_b (snd r) (filter (fun v => smemb v out) (schema_refs_m m p (fst r)))) (c_refs ob)
   | None => false
   end.
 
